@@ -1504,3 +1504,76 @@ def rule_cpp_spelling_not_flattened(ctx, rep: Report, rid="W8"):
                         f"`PinholeCameraCal3Bundler`, which names no type", f"{mi.rel}:{bad[0].lineno if bad else fn.lineno}", nontrivial=bool(bad))
     if n < 8:
         raise AnalysisError(f"{rep.prop}/{rid}: only {n} C++-spelling methods found")
+
+
+def rule_simultaneous_substitution(ctx, rep: Report, rid="S12"):
+    """Substitution is simultaneous: what a parameter was replaced by is concrete text and is never scanned for
+    parameters again (a concrete type `std::vector<gtsam::Value>` bound to `Key` must not have its `Value` captured by a
+    parameter `Value`).  In a walk over the template arguments this means that a node is either rewritten or descended
+    into, never rewritten first and descended into afterwards:
+    (a) recursive walker: a store into the visited node and the recursive call on that node lie in different arms of
+        one `if`;
+    (b) lazy walker (a generator that yields a node and then its children): the consumer does not store into the
+        attribute through which the generator descends, because the generator resumes *after* the store and walks
+        into the text that was just put there."""
+    from .rules_flow import _exclusive
+    prog = ctx.prog
+    n = 0
+    for mi in sorted(prog.modules.values(), key=lambda m: m.rel):
+        if not mi.rel.startswith(TI):
+            continue
+        fns = [f for f in ast.walk(mi.tree) if isinstance(f, ast.FunctionDef)]
+        gens = {f.name: f for f in fns if any(isinstance(y, (ast.Yield, ast.YieldFrom)) for y in walk_no_nested(f))}
+        for f in fns:
+            # (a) recursive walkers over an attribute of their parameter
+            ps = func_params(f)
+            for loop in [l for l in walk_no_nested(f) if isinstance(l, ast.For) and isinstance(l.target, ast.Name)
+                         and isinstance(l.iter, ast.Attribute) and isinstance(l.iter.value, ast.Name) and l.iter.value.id in ps]:
+                v = loop.target.id
+                rec = [c for c in ast.walk(loop) if isinstance(c, ast.Call) and isinstance(c.func, ast.Name) and c.func.id == f.name
+                       and any(isinstance(a, ast.Name) and a.id == v for a in c.args)]
+                stores = [s_ for s_ in ast.walk(loop) if isinstance(s_, ast.Attribute) and isinstance(s_.ctx, ast.Store)
+                          and isinstance(s_.value, ast.Name) and s_.value.id == v]
+                if not rec or not stores:
+                    continue
+                n += 1
+                bad = [(s_.lineno, r.lineno) for s_ in stores for r in rec if not _exclusive(s_, r) and s_.lineno < r.lineno]
+                rep.add(rid, f"simultaneous:{f.name}:a node is rewritten or descended into, not both", not bad,
+                        f"`{v}.{stores[0].attr}` is stored at line {bad[0][0] if bad else 0} and `{f.name}({v})` descends into the same node at line "
+                        f"{bad[0][1] if bad else 0} on the same path: the replacement text is scanned for template parameters again", f"{mi.rel}:{loop.lineno}")
+            # (b) consumers of a lazy walker
+            for loop in [l for l in walk_no_nested(f) if isinstance(l, ast.For) and isinstance(l.target, ast.Name) and isinstance(l.iter, ast.Call)
+                         and isinstance(l.iter.func, ast.Name) and l.iter.func.id in gens]:
+                g = gens[loop.iter.func.id]
+                # the attributes through which `g` keeps walking *below a node it has already yielded*: the iteration sources
+                # of its loops over a parameter, provided some yielded node is handed to a recursive call that can run after the
+                # yield (not in the other arm of an `if`)
+                gps = set(func_params(g))
+                iter_attrs = {l.iter.attr for l in walk_no_nested(g) if isinstance(l, ast.For) and isinstance(l.iter, ast.Attribute)
+                              and isinstance(l.iter.value, ast.Name) and l.iter.value.id in gps}
+                resumes_below = False
+                for y in walk_no_nested(g):
+                    if isinstance(y, ast.Yield) and isinstance(y.value, ast.Name):
+                        for c in walk_no_nested(g):
+                            if isinstance(c, ast.Call) and isinstance(c.func, ast.Name) and c.func.id == g.name \
+                                    and any(isinstance(a, ast.Name) and a.id == y.value.id for a in c.args) and not _exclusive(y, c):
+                                resumes_below = True
+                descends = iter_attrs if resumes_below else set()
+                v = loop.target.id
+                stored = {}
+                for s_ in ast.walk(loop):
+                    if isinstance(s_, ast.Attribute) and isinstance(s_.ctx, ast.Store) and isinstance(s_.value, ast.Name) and s_.value.id == v:
+                        stored.setdefault(s_.attr, s_.lineno)
+                    if isinstance(s_, ast.Call) and isinstance(s_.func, ast.Attribute) and s_.func.attr in ("append", "extend", "insert", "clear", "pop") \
+                            and isinstance(s_.func.value, ast.Attribute) and isinstance(s_.func.value.value, ast.Name) and s_.func.value.value.id == v:
+                        stored.setdefault(s_.func.value.attr, s_.lineno)
+                if not stored:
+                    continue
+                n += 1
+                clash = sorted(set(stored) & descends)
+                rep.add(rid, f"simultaneous:{f.name}:the consumer of the lazy walk `{g.name}` leaves the walked attribute alone", not clash,
+                        f"`{v}.{clash[0] if clash else ''}` is stored at line {stored.get(clash[0]) if clash else 0} while the generator `{g.name}` has not yet descended "
+                        f"through `.{clash[0] if clash else ''}` of that node: it resumes inside the replacement and rewrites identifiers of the concrete type",
+                        f"{mi.rel}:{loop.lineno}")
+    if n < 1:
+        raise AnalysisError(f"{rep.prop}/{rid}: no walk over template arguments found in the instantiator")
